@@ -103,7 +103,7 @@ func (a *vKindActor) Receive(c *actor.Context) {
 }
 
 var vSysKinds = []string{"p", "q"}
-var vSysIDs = []string{"1", "2"}
+var vSysIDs = []string{"1", "2", "e/7"} // an id may contain "/" (only kind names may not)
 
 func vPidStr(p *actor.PID) string {
 	if p == nil {
